@@ -284,12 +284,13 @@ func (r *Raft) compactLog(lte uint64) error {
 // no replication is going on when this called
 // todo: are you sure about this ???
 func (s *storage) clearLog() error {
-	if err := s.log.Reset(s.snaps.index); err != nil {
-		return opError(err, "Log.Reset(%d)", s.snaps.index)
+	snapIndex, snapTerm := s.snaps.latest()
+	if err := s.log.Reset(snapIndex); err != nil {
+		return opError(err, "Log.Reset(%d)", snapIndex)
 	}
-	assert(s.log.LastIndex() == s.snaps.index)
-	assert(s.log.PrevIndex() == s.snaps.index)
-	s.lastLogIndex, s.lastLogTerm = s.snaps.index, s.snaps.term
+	assert(s.log.LastIndex() == snapIndex)
+	assert(s.log.PrevIndex() == snapIndex)
+	s.lastLogIndex, s.lastLogTerm = snapIndex, snapTerm
 	return nil
 }
 
